@@ -27,21 +27,21 @@ type propSpec struct {
 }
 
 var (
-	flagProp     = flag.String("prop", "", "property id (e.g. C13)")
-	flagTier     = flag.String("tier", "quick", "quick|thorough")
-	flagRepo     = flag.String("repo", "/repo", "repository root")
-	flagVerif    = flag.String("verif", "/verif", "verif root")
-	flagUnit     = flag.String("unit", "", "run only units matching this regexp")
-	flagWorkers  = flag.Int("workers", 0, "worker count (default: cores)")
-	flagDebug    = flag.Bool("debug", false, "debug")
-	flagTrace    = flag.Bool("trace", false, "trace calls")
-	flagNoReplay = flag.Bool("noreplay", false, "do not replay counterexamples natively")
-	flagSolver   = flag.String("solver", "z3-new", "solver binary")
-	flagCross    = flag.String("crosscheck", "auto", "re-discharge logged solver sessions (a capped sample per unit; larger in the thorough tier) with z3 4.8.12 and cvc5: auto | on | off")
-	flagMaxPaths = flag.Int("maxpaths", 0, "override max paths")
+	flagProp        = flag.String("prop", "", "property id (e.g. C13)")
+	flagTier        = flag.String("tier", "quick", "quick|thorough")
+	flagRepo        = flag.String("repo", "/repo", "repository root")
+	flagVerif       = flag.String("verif", "/verif", "verif root")
+	flagUnit        = flag.String("unit", "", "run only units matching this regexp")
+	flagWorkers     = flag.Int("workers", 0, "worker count (default: cores)")
+	flagDebug       = flag.Bool("debug", false, "debug")
+	flagTrace       = flag.Bool("trace", false, "trace calls")
+	flagNoReplay    = flag.Bool("noreplay", false, "do not replay counterexamples natively")
+	flagSolver      = flag.String("solver", "z3-new", "solver binary")
+	flagCross       = flag.String("crosscheck", "auto", "re-discharge logged solver sessions (a capped sample per unit; larger in the thorough tier) with z3 4.8.12 and cvc5: auto | on | off")
+	flagMaxPaths    = flag.Int("maxpaths", 0, "override max paths")
 	flagUnitSeconds = flag.Int("unit-seconds", 0, "wall-clock budget per unit (default 1800 quick / 5400 thorough); exceeding it is reported as incomplete")
-	flagPrefix   = flag.String("prefix", "", "run a single path with this decision prefix (debug), e.g. 'B1 B0 V5'")
-	flagEvidence = flag.Bool("evidence", true, "write evidence file")
+	flagPrefix      = flag.String("prefix", "", "run a single path with this decision prefix (debug), e.g. 'B1 B0 V5'")
+	flagEvidence    = flag.Bool("evidence", true, "write evidence file")
 )
 
 const repoMod = "github.com/whawty/auth"
@@ -275,8 +275,11 @@ func run() int {
 			sym.XLogDir = d
 			defer os.RemoveAll(d)
 		}
-		sym.XLogMax = 16 // sessions per unit
+		sym.XLogMax = 8 // sessions per unit
+		sym.XLogCap = 1 << 20
+		sym.SessionReplaySeconds = 600
 		if tier != "thorough" {
+			sym.SessionReplaySeconds = 120
 			sym.XLogCap = 256 << 10
 			sym.XLogMax = 3
 		}
@@ -488,29 +491,29 @@ func run() int {
 		"seed":        seed,
 		"level":       "model_checking",
 		"coverage": map[string]interface{}{
-			"states":                        totalPaths,
-			"transitions":                   totalDec,
-			"traces_validated_against_impl": replays,
-			"samples":                       samples,
-			"evaluations":                   totalPaths,
-			"distinct_nontrivial":           totalPaths,
-			"rule":                          "one evaluation = one feasible symbolic path (distinct decision sequence) of a harness unit, each standing for all inputs satisfying its path condition; states = feasible paths, transitions = decisions (branches, concretised shapes, choices) taken",
-			"exhaustive":                    exit == 0,
-			"obligations":                   totalAsserts + totalFolded,
-			"discharged":                    totalAsserts + totalFolded,
-			"units":                         evUnits,
-			"repo_functions_encoded":        funcs,
-			"solver":                        *flagSolver + " (z3 -in, one process per worker, push/pop)",
-			"solver_queries":                totalQ,
-			"solver_s":                      totalSolver,
-			"load_s":                        loadS,
-			"bounds":                        spec.Bounds,
-			"outside_claim":                 spec.Outside,
-			"known_findings":                dedup(knownLines),
+			"states":                               totalPaths,
+			"transitions":                          totalDec,
+			"traces_validated_against_impl":        replays,
+			"samples":                              samples,
+			"evaluations":                          totalPaths,
+			"distinct_nontrivial":                  totalPaths,
+			"rule":                                 "one evaluation = one feasible symbolic path (distinct decision sequence) of a harness unit, each standing for all inputs satisfying its path condition; states = feasible paths, transitions = decisions (branches, concretised shapes, choices) taken",
+			"exhaustive":                           exit == 0,
+			"obligations":                          totalAsserts + totalFolded,
+			"discharged":                           totalAsserts + totalFolded,
+			"units":                                evUnits,
+			"repo_functions_encoded":               funcs,
+			"solver":                               *flagSolver + " (z3 -in, one process per worker, push/pop)",
+			"solver_queries":                       totalQ,
+			"solver_s":                             totalSolver,
+			"load_s":                               loadS,
+			"bounds":                               spec.Bounds,
+			"outside_claim":                        spec.Outside,
+			"known_findings":                       dedup(knownLines),
 			"witness_traces_validated_with_strace": traceValidated,
-			"inconclusive":                  inconclusive,
-			"cross_solver":                  crossRes,
-			"explanation":                   "bounded symbolic execution of the real go/ssa of /repo (regenerated on this run) with SMT discharge of every assertion; see DESIGN.md",
+			"inconclusive":                         inconclusive,
+			"cross_solver":                         crossRes,
+			"explanation":                          "bounded symbolic execution of the real go/ssa of /repo (regenerated on this run) with SMT discharge of every assertion; see DESIGN.md",
 		},
 		"assumptions": spec.Assumptions,
 		"wall_s":      wall,
